@@ -218,10 +218,25 @@ class Evaluator:
         if isinstance(base, V) and base.ty == S.T_INST:
             return S.inst_field(base, attr)
         if isinstance(base, V) and base.ty == S.T_SUB and attr == 'graph':
-            return S.sub_graph(base)
+            return self.sub_graph(base, path, node)
+        if isinstance(base, V) and base.ty == S.T_SUB:
+            return ('submethod', base, attr, node.value if node is not None else None)
         if isinstance(base, V):
             return ('valmethod', base, attr, node.value if node is not None else None)
         raise Unsupported('attribute %s of %r' % (attr, base))
+
+    def sub_graph(self, base, path, node=None):
+        """block dictionary of a region's sub-graph: read from the heap of the state the expression is rooted in
+        (`old.` / `entry.` / `it0.` namespaces carry their own heap); outside heap mode an uninterpreted function"""
+        heap = path.env.get('$heap')
+        n = node
+        while n is not None and not isinstance(n, ast.Name):
+            n = getattr(n, 'value', None) if isinstance(n, (ast.Attribute, ast.Subscript)) else None
+        if n is not None and isinstance(path.env.get(n.id), Namespace):
+            heap = path.env[n.id].env.get('$heap', heap)
+        if heap is None:
+            return S.sub_graph(base)
+        return V(('dict', T_NAME, T_BLOCK), Select(heap.t, base.t))
 
     # -- containers -----------------------------------------------------
     def ev_Tuple(self, node, path, spec):
@@ -282,7 +297,11 @@ class Evaluator:
         if isinstance(node.slice, ast.Slice):
             return self.eng.seq_slice(self, base, node.slice, path, spec)
         idx = self.ev(node.slice, path, spec)
-        return self.subscript(base, idx, path, spec, ast.unparse(node))
+        self._cur_node = node.value
+        try:
+            return self.subscript(base, idx, path, spec, ast.unparse(node))
+        finally:
+            self._cur_node = None
 
     def subscript(self, base, idx, path, spec, site):
         if isinstance(base, VObj) and base.cls == 'ConcealedRegionView':
@@ -290,7 +309,7 @@ class Evaluator:
         if isinstance(base, VObj) and base.cls == 'SCFG':
             base = base.f['graph']
         if isinstance(base, V) and base.ty == S.T_SUB:
-            base = S.sub_graph(base)          # SCFG.__getitem__ of the region's sub-graph
+            base = self.sub_graph(base, path, getattr(self, '_cur_node', None))   # SCFG.__getitem__ of the region's sub-graph
         k = base.ty[0]
         if k == 'seq':
             n = S.seq_n(base)
@@ -390,7 +409,11 @@ class Evaluator:
         out = []
         for op, rn in zip(node.ops, node.comparators):
             right = self.ev(rn, path, spec)
-            out.append(self.compare(op, left, right, path, spec))
+            self._cur_node, self._cur_path = rn, path
+            try:
+                out.append(self.compare(op, left, right, path, spec))
+            finally:
+                self._cur_node, self._cur_path = None, None
             left = right
         return S.vbool(And(*out) if len(out) > 1 else out[0])
 
@@ -444,7 +467,7 @@ class Evaluator:
         if isinstance(c, VObj) and c.cls == 'SCFG':
             c = c.f['graph']
         if isinstance(c, V) and c.ty == S.T_SUB:
-            c = S.sub_graph(c)
+            c = self.sub_graph(c, self._cur_path, getattr(self, '_cur_node', None)) if getattr(self, '_cur_path', None) is not None else S.sub_graph(c)
         k = c.ty[0]
         if k == 'seq':
             return S.seq_mem(c, x.t)
@@ -466,6 +489,9 @@ class Evaluator:
             args = [self.ev(a, path, spec).t for a in it.args]
             lo, hi = (IntVal(0), args[0]) if len(args) == 1 else (args[0], args[1])
             return T_INT, (lambda q: {tgt.id: V(T_INT, q)}), (lambda q: And(lo <= q, q < hi))
+        if isinstance(it, ast.Call) and isinstance(it.func, ast.Name) and it.func.id == 'all_subs':
+            # every sub-graph identity of the heap (at run time: the sub-graphs nested under the arguments)
+            return S.T_SUB, (lambda q: {tgt.id: V(S.T_SUB, q)}), (lambda q: BoolVal(True))
         if isinstance(it, ast.Call) and isinstance(it.func, ast.Name) and it.func.id == 'enumerate':
             seq = self.ev(it.args[0], path, spec)
             a, b = tgt.elts
@@ -668,7 +694,8 @@ class Evaluator:
         hit = self.eng.set_cache.get(key)
         if hit is None:
             et = seq.ty[1]
-            sc = z3.FreshConst(S.sort_of(('set', et)), 'setof')
+            # set(seq) as a function of the sequence value: equal sequences (by congruence) give equal sets
+            sc = ufun('setof!' + S.mangle(et), S.sort_of(seq.ty), S.sort_of(('set', et)))(seq.t)
             y = z3.FreshConst(S.sort_of(et), 'sy')
             m = z3.FreshInt('sm')
             n = S.seq_n(seq)
@@ -882,6 +909,8 @@ class Engine:
         r = self.fresh_seq(a.ty[1], 'cat')
         k = z3.FreshInt('kc')
         na, nb = S.seq_n(a), S.seq_n(b)
+        self.prefix_of[S.seq_arr(r).get_id()] = (S.seq_arr(a), na)
+        self.keepalive.extend([S.seq_arr(r), S.seq_arr(a)])
         path.assume(S.seq_n(r) == na + nb)
         path.assume(ForAll([k], Implies(And(0 <= k, k < na), Select(S.seq_arr(r), k) == Select(S.seq_arr(a), k)),
                            patterns=[Select(S.seq_arr(r), k)]))
@@ -1084,6 +1113,8 @@ class Engine:
             tag = fv[0]
             if tag == 'valmethod':
                 return self.call_value_method(ev, fv[1], fv[2], fv[3], node, path, spec)
+            if tag == 'submethod':
+                return self.call_sub_method(ev, fv, node, path, spec)
             if tag == 'blockmember':
                 return self.call_block_method(ev, fv[1], fv[2], node, path, spec)
             if tag == 'boundmethod':
@@ -1327,6 +1358,108 @@ class Engine:
             return V(T_NAME, t)
         if name == 'rind':
             return self.rind(ev, node, path, spec)
+        if name == 'fact':
+            # fact('Class.func', 'clause', arg): the instance at `arg` of an ensures clause of a pure contracted function
+            # with no precondition (the clause is discharged for all inputs among that function's own obligations; used for
+            # clauses that are not offered as quantified axioms because they form matching loops)
+            qs, cl = a[0].value, a[1].value
+            cands = [q for q in REGISTRY if q.endswith(':' + qs) or q.endswith('.' + qs)]
+            if len(cands) != 1:
+                raise Unsupported('fact(): no unique contract for ' + qs)
+            c2 = REGISTRY[cands[0]]
+            if not c2.pure or c2.requires or cl not in c2.ensures or len(c2.params) != 1 or c2.trusted:
+                raise Unsupported('fact(): %s.%s is not an unconditional clause of a pure unary function' % (qs, cl))
+            v0 = E(2)
+            pn = list(c2.params)[0]
+            flat = []
+            self.flatten(v0, pn, flat)
+            rty2 = S.parse_type(c2.returns)
+            fsym = ufun('F!' + cands[0], *([S.sort_of(v.ty) for _, v in flat] + [S.sort_of(rty2)]))
+            env2 = {pn: v0, 'result': V(rty2, fsym(*[v.t for _, v in flat]))}
+            env2['old'] = Namespace({pn: v0})
+            self.assumptions_used.add('instance of the proved clause %s of %s' % (cl, cands[0].split(':')[1]))
+            return S.vbool(self.spec_formula(ast.parse(c2.ensures[cl], mode='eval').body, env2, path, cands[0].split(':')[0]))
+        if name == 'sub_depth':
+            return S.vint(ufun('sub_depth', z3.IntSort(), z3.IntSort())(E(0).t))
+        if name == 'graph_at_entry':
+            if self.pre_env is None or self.pre_env.get('$heap') is None:
+                raise Unsupported('graph_at_entry outside heap mode')
+            return V(('dict', T_NAME, T_BLOCK), Select(self.pre_env['$heap'].t, E(0).t))
+        if name == 'same_value':
+            # equality of two values as SMT terms (implies ==; lets congruence identify function applications over them)
+            return S.vbool(E(0).t == E(1).t)
+        if name == 'graph_now':
+            return V(('dict', T_NAME, T_BLOCK), Select(path.env['$heap'].t, E(0).t))
+        if name == 'heap_unchanged':
+            return S.vbool(path.env['$heap'].t == self.pre_env['$heap'].t)
+        if name == 'nesting_wf':
+            # the nesting of sub-graphs is well founded: a region block stored in sub-graph s has a sub-graph of greater depth
+            h = path.env['$heap']
+            sq, kq = z3.FreshInt('ws'), z3.FreshConst(S.sort_of(T_NAME), 'wk')
+            g = V(('dict', T_NAME, T_BLOCK), Select(h.t, sq))
+            b = S.dict_get(g, kq)
+            dep = ufun('sub_depth', z3.IntSort(), z3.IntSort())
+            cs = SRC.block_classes()
+            isreg = S.block_field(b, 'cls').t == cs['RegionBlock']['id']
+            return S.vbool(S.forall_p([sq, kq], Implies(And(S.dict_has(g, kq), isreg), dep(S.block_field(b, 'subregion').t) > dep(sq)),
+                                      [Select(S.dict_val(g), kq)]))
+        if name == 'fwd_rank':
+            # fwd_rank(seq, be, p): number of entries of seq[:p] that are not in be (uninterpreted, with its recurrence)
+            sq_, be_, p_ = E(0), E(1), E(2)
+            if isinstance(be_, V) and be_.ty[0] == 'seq' and ev.is_closed(be_.t) and not self.in_axiom:
+                be_ = ev.named_set_of_seq(be_, path)        # set(seq) as the function application setof(seq), with its definition
+            elif isinstance(be_, V) and be_.ty[0] == 'seq':
+                # under a quantifier: the same function application (its definition is supplied where a closed instance occurs)
+                be_ = V(('set', be_.ty[1]), ufun('setof!' + S.mangle(be_.ty[1]), S.sort_of(be_.ty), S.sort_of(('set', be_.ty[1])))(be_.t))
+            else:
+                be_ = self.to_set(be_)
+            arr, n = S.seq_arr(sq_), S.seq_n(sq_)
+            n_before = len(path.hyps)
+            R = ufun('fwd_rank', arr.sort(), be_.t.sort(), z3.IntSort(), z3.IntSort())
+            if ('fwd_rank-prefix', str(arr.sort())) not in self._axiom_keys and not self.in_axiom:
+                # prefix lemma, general form: two sequences that agree below p have the same count below p
+                self._axiom_keys.add(('fwd_rank-prefix', str(arr.sort())))
+                A1, A2 = z3.Const('pl!A1', arr.sort()), z3.Const('pl!A2', arr.sort())
+                Bq = z3.Const('pl!B', be_.t.sort())
+                pq, qq = z3.Int('pl!p'), z3.Int('pl!q')
+                agree = ForAll([qq], Implies(And(0 <= qq, qq < pq), Select(A1, qq) == Select(A2, qq)))
+                self.rank_prefix_axiom = (ForAll([A1, A2, Bq, pq], Implies(And(pq >= 0, agree), R(A1, Bq, pq) == R(A2, Bq, pq)),
+                                          patterns=[z3.MultiPattern(R(A1, Bq, pq), R(A2, Bq, pq))]))
+                self.labels[self.rank_prefix_axiom.get_id()] = 'fact:rank-prefix'
+                self.assumptions_used.add('fwd_rank prefix lemma: the number of non-back-edge entries below p only depends on the entries below p')
+            key = ('fwd_rank', arr.get_id(), be_.t.get_id())
+            if key not in self._axiom_keys and ev.is_closed(arr) and ev.is_closed(be_.t) and not self.in_axiom:
+                self._axiom_keys.add(key)
+                self.keepalive.extend([arr, be_.t])
+                j = z3.FreshInt('rj')
+                path.hyps.append(R(arr, be_.t, 0) == 0)
+                step = R(arr, be_.t, j + 1) == R(arr, be_.t, j) + If(Select(be_.t, Select(arr, j)), 0, 1)
+                path.hyps.append(S.forall_p([j], Implies(j >= 0, step), [R(arr, be_.t, j)]))
+                path.hyps.append(S.forall_p([j], Implies(j >= 0, And(R(arr, be_.t, j) >= 0, R(arr, be_.t, j) <= j)), [R(arr, be_.t, j)]))
+                # prefix lemma (the count only depends on the entries below p; induction on p): instances for the
+                # sequences this one was built from by an update / append / concatenation
+                cur, seen_ = arr, 0
+                while cur.get_id() in getattr(self, 'prefix_of', {}) and seen_ < 6:
+                    base_arr, upto = self.prefix_of[cur.get_id()]
+                    body_ = Implies(And(j >= 0, j <= upto), R(arr, be_.t, j) == R(base_arr, be_.t, j))
+                    path.hyps.append(S.forall_p([j], body_, [R(arr, be_.t, j)]))
+                    path.hyps.append(S.forall_p([j], body_, [R(base_arr, be_.t, j)]))
+                    self.assumptions_used.add('fwd_rank prefix lemma: the number of non-back-edge entries below p only depends on the entries below p')
+                    # the base sequence needs its own recurrence
+                    bkey = ('fwd_rank', base_arr.get_id(), be_.t.get_id())
+                    if bkey not in self._axiom_keys:
+                        self._axiom_keys.add(bkey)
+                        path.hyps.append(R(base_arr, be_.t, 0) == 0)
+                        stepb = R(base_arr, be_.t, j + 1) == R(base_arr, be_.t, j) + If(Select(be_.t, Select(base_arr, j)), 0, 1)
+                        path.hyps.append(S.forall_p([j], Implies(j >= 0, stepb), [R(base_arr, be_.t, j)]))
+                    upto_prev = upto
+                    cur = base_arr
+                    seen_ += 1
+            for h_ in path.hyps[n_before:]:
+                self.labels.setdefault(h_.get_id(), 'fact:rank')
+            if getattr(self, 'rank_prefix_axiom', None) is not None and not any(self.rank_prefix_axiom.eq(h_) for h_ in path.hyps):
+                path.hyps.append(self.rank_prefix_axiom)
+            return S.vint(R(arr, be_.t, p_.t))
         if name == 'identical':
             # equality of two sets / maps as SMT array terms (extensional in the array theory, hence the same as ==);
             # assumed, it lets congruence identify uninterpreted predicates over the two terms
@@ -1693,6 +1826,34 @@ class Engine:
             path.hyps.append(S.forall_p([k], body, [pat]))
         return r
 
+    def heap_store(self, path, sub, graph):
+        """heap[sub] = graph as a named heap with two-direction triggered frame axioms"""
+        h = path.env['$heap']
+        r = S.fresh(S.T_HEAP, 'heap')
+        k = z3.FreshInt('hk')
+        path.hyps.append(Select(r.t, sub.t) == graph.t)
+        body = Implies(k != sub.t, Select(r.t, k) == Select(h.t, k))
+        for pat in (Select(r.t, k), Select(h.t, k)):
+            path.hyps.append(S.forall_p([k], body, [pat]))
+        path.env['$heap'] = r
+
+    def call_sub_method(self, ev, fv, node, path, spec):
+        """a method of SCFG called on a region's sub-graph (`block.subregion.add_block(b)`): the callee's contract is applied
+        to an SCFG object whose graph is the heap entry; the entry is written back"""
+        base, meth = fv[1], fv[2]
+        if path.env.get('$heap') is None:
+            raise Unsupported('method call on a sub-graph outside heap mode')
+        tmp = VObj('SCFG', {'graph': ev.sub_graph(base, path, None),
+                            'name_gen': VObj('NameGenerator', {'kinds': S.fresh(S.parse_type('dict[name,int]'), 'sub_kinds')}),
+                            'region': VObj('RegionRef', {'kind': S.fresh(T_NAME, 'sub_kind'), 'name': S.fresh(T_NAME, 'sub_rname')})})
+        path.env['$sub'] = tmp
+        qual = '%s:SCFG.%s' % (OBJ_MODULE['SCFG'], meth)
+        r = self.call_contract(ev, qual, node, path, spec, self_val=tmp, self_node=ast.Name(id='$sub', ctx=ast.Load()))
+        after = path.env.pop('$sub')
+        if not after.f['graph'].t.eq(tmp.f['graph'].t):
+            self.heap_store(path, base, after.f['graph'])
+        return r
+
     def tmap_store(self, d, key, val, path):
         r = S.fresh(d.ty, 'tupd')
         k = z3.FreshConst(S.sort_of(d.ty[1]), 'tk')
@@ -1759,6 +1920,8 @@ class Engine:
         arr = S.seq_arr(base)
         r = self.fresh_seq(base.ty[1], 'upd')
         ra = S.seq_arr(r)
+        self.prefix_of[ra.get_id()] = (arr, i)          # r agrees with base below position i
+        self.keepalive.extend([ra, arr])
         k = z3.FreshInt('uk')
         path.assume(S.seq_n(r) == n)
         path.assume(Select(ra, i) == x)
@@ -1789,6 +1952,9 @@ class Engine:
             return
         if isinstance(target, ast.Attribute):
             obj = ev.ev(target.value, path, False)
+            if isinstance(obj, V) and obj.ty == S.T_SUB and target.attr == 'graph' and path.env.get('$heap') is not None:
+                self.heap_store(path, obj, val)
+                return
             if not isinstance(obj, VObj):
                 raise Unsupported('attribute assignment on non-object: ' + ast.unparse(target))
             new = obj.copy()
@@ -1943,6 +2109,14 @@ class Engine:
         site = ast.unparse(node) if node is not None else qual.split(':')[1]
         if c.trusted:
             self.assumptions_used.add('trusted contract: ' + qual)
+        if c.heap and path.env.get('$heap') is None:
+            # a heap-mode function called from a value-mode caller: it only writes inside region sub-graphs, which the
+            # caller's level does not see; its preconditions on the heap cannot be stated here and are not checked
+            if set(c.modifies) - {'$heap'}:
+                raise Unsupported('heap-mode callee %s modifies caller-visible state' % qual)
+            self.assumptions_used.add('call of the heap-mode function %s from a value-mode caller: no effect at the caller\'s level; '
+                                      'its heap preconditions are not checked at this call (hierarchy clause: run-time contracts)' % qual.split(':')[1])
+            return NONE
         # ---- inline definitions
         if c.inline is not None:
             sub = Evaluator(self, cm)
@@ -2130,6 +2304,9 @@ class Engine:
                     env = dict(path.env, old=self.old_ns)
                     for cn, text in clauses.items():
                         g = self.spec_formula(ast.parse(text, mode='eval').body, env, path)
+                        if text.strip().startswith('fact('):
+                            self.labels[path.assume(g).get_id()] = cn     # instance of a clause proved elsewhere
+                            continue
                         self.add_obligation(path, 'cut', '%s:%s' % (key[:40], cn), g)
         return m(st, path)
 
@@ -2455,6 +2632,10 @@ class Engine:
                         for q, c in REGISTRY.items():
                             if q.endswith('.' + n.func.attr) and c.modifies:
                                 for loc in c.modifies:
+                                    if loc == '$heap':
+                                        if self.c.heap:
+                                            names.add('$heap')
+                                        continue
                                     lp = loc.split('.')
                                     full = ch + lp[1:]
                                     (names if len(full) == 1 else locs).add('.'.join(full))
@@ -2462,6 +2643,10 @@ class Engine:
                     for q, c in REGISTRY.items():
                         if q.endswith(':' + n.func.id) and c.modifies:
                             for loc in c.modifies:
+                                if loc == '$heap':
+                                    if self.c.heap:
+                                        names.add('$heap')
+                                    continue
                                 lp = loc.split('.')
                                 pn = list(c.params).index(lp[0])
                                 if pn < len(n.args):
@@ -2469,6 +2654,8 @@ class Engine:
                                     if ch:
                                         full = ch + lp[1:]
                                         (names if len(full) == 1 else locs).add('.'.join(full))
+        if self.c.heap and any('.subregion' in ast.unparse(st) for st in stmts):
+            names.add('$heap')
         return names, locs
 
     def havoc(self, path, names, locs):
@@ -2703,12 +2890,17 @@ class Engine:
         self.flush_aliases(path)
         key, spec = self.loop_spec(st)
         names, locs = self.write_set(st.body)
+        path.env['_iter'] = S.vint(0)
         entry = Namespace(dict(path.env))
         base_env = lambda p: dict(p.env, entry=entry, old=self.old_ns)
         results = []
         self.check_inv(spec, key, base_env(path), path, 'inv-init')
         p = path.copy()
         self.havoc(p, names, locs)
+        # ghost `_iter`: number of completed iterations
+        itc = z3.FreshInt('iter')
+        p.assume(itc >= 0)
+        p.env['_iter'] = S.vint(itc)
         self.assume_inv(spec, base_env(p), p)
         self.assume_lemmas(spec, base_env(p), p)
         c = ev.ev_bool(st.test, p, False)
@@ -2727,9 +2919,13 @@ class Engine:
             self.bound_cuts.add('end:' + key)
         for p2, o in outs:
             if o in (None, 'continue'):
+                p2.env['_iter'] = S.vint(itc + 1)
                 # lemmas at the end of the body (proved, then assumed), before the invariant is re-established
                 for cn, text in (end_cuts or {}).items():
                     g = self.spec_formula(ast.parse(text, mode='eval').body, base_env(p2), p2)
+                    if text.strip().startswith('fact('):
+                        self.labels[p2.assume(g).get_id()] = cn
+                        continue
                     self.add_obligation(p2, 'cut', 'end:%s:%s' % (key[:40], cn), g)
                 self.check_inv(spec, key, base_env(p2), p2, 'inv-step')
                 if measure0 is not None:
@@ -2774,6 +2970,7 @@ class Engine:
                 self.loop_ordinals[id(n)] = seen.get(k, 0)
                 seen[k] = seen.get(k, 0) + 1
         self.bound_loops = set()
+        self.prefix_of = {}
         # locals on which a mutating method is called somewhere in the function (alias model, see record_alias)
         self.mutated_locals = {n.func.value.id for n in ast.walk(self.fn) if isinstance(n, ast.Call) and isinstance(n.func, ast.Attribute)
                                and n.func.attr in MUTATING_METHODS and isinstance(n.func.value, ast.Name)}
@@ -2786,6 +2983,8 @@ class Engine:
         if real != list(c.params):
             raise Unsupported('signature changed: %r vs contract %r' % (real, list(c.params)))
         env = {n: self.symbolic_param(n, t) for n, t in c.params.items()}
+        if c.heap:
+            env['$heap'] = V(S.T_HEAP, z3.Const('in!heap', S.sort_of(S.T_HEAP)))
         self.pre_env = {k: (v.copy() if isinstance(v, VObj) else v) for k, v in env.items()}
         self.old_ns = Namespace(self.pre_env)
         if c.yields:
@@ -2829,6 +3028,8 @@ class Engine:
                 for i, conj in enumerate(self.conjuncts(node)):
                     g = self.spec_formula(conj, fenv, p)
                     self.add_obligation(p, 'post', cn if i == 0 and len(self.conjuncts(node)) == 1 else '%s.%d' % (cn, i), g)
+            if c.heap and '$heap' not in c.modifies:
+                self.add_obligation(p, 'frame', '$heap', p.env['$heap'].t == self.pre_env['$heap'].t)
             # frame: every tracked location of an object parameter not listed in `modifies` is unchanged
             for n, t in c.params.items():
                 init = self.pre_env[n]
